@@ -27,7 +27,7 @@ def models(tier, seed):
     return ms
 
 
-KINDS = ['plain', 'plain', 'timer', 'repeat', 'oa', 'vp', 'ia', 'slowstop', 'cb', 'trig']
+KINDS = ['plain', 'plain', 'timer', 'repeat', 'oa', 'of', 'vp', 'ia', 'slowstop', 'cb', 'trig']
 
 
 def rand_blocks(rnd, n=None, fault=True):
@@ -38,6 +38,8 @@ def rand_blocks(rnd, n=None, fault=True):
         conf = {'kind': k}
         if k == 'oa':
             conf.update(mode=rnd.choice('wcs'), dur=rnd.choice([0, 1, 3]), sd=rnd.random() < 0.5)
+        elif k == 'of':
+            conf.update(sd=rnd.random() < 0.6)
         elif k == 'vp':
             conf.update(idur=rnd.choice([0, 2, 6]), itmo=rnd.choice([4, 8]))
         elif k == 'ia':
@@ -122,7 +124,7 @@ def rand_stim(rnd, check):
                             'shape': {'value': rnd.randint(1, 5)}})
         if b.get('fault') in ('handler', 'eval'):
             actions.append({'t': rnd.choice([0, 2, 5, 10]), 'yields': rnd.randint(0, 3), 'op': 'hit', 'dest': i})
-        if b['kind'] == 'oa' and rnd.random() < 0.6:
+        if b['kind'] in ('oa', 'of') and rnd.random() < 0.6:
             actions.append({'t': rnd.choice([5, 9, 10]), 'yields': 0, 'op': 'hit', 'dest': i, 'value': 3})
     cause = rand_cause(rnd, blocks, api)
     if cause:
